@@ -173,8 +173,6 @@ func (vs views) String() string {
 }
 
 func (m *Member) intersectedView(topic topic, topicHex string, tpv *topicPeerView) []uint16 {
-	var members []uint16
-
 	views := make(views)
 
 	// Our own view is built from the keys of the very same pass that collects the announced views:
@@ -184,7 +182,7 @@ func (m *Member) intersectedView(topic topic, topicHex string, tpv *topicPeerVie
 
 	memberToView := tpv.memberToView
 	memberToView.Range(func(k, v interface{}) bool {
-		members = v.([]uint16)
+		members := v.([]uint16)
 		myView = append(myView, k.(uint16))
 		views[view{
 			content: fmt.Sprintf("%v", members),
@@ -204,7 +202,10 @@ func (m *Member) intersectedView(topic topic, topicHex string, tpv *topicPeerVie
 		return nil
 	}
 
-	return members
+	// Every announced view equals our own view here. Returning our own view (rather than the last
+	// announced one, which is nil when nobody announced) lets a member that expects only itself complete,
+	// and makes an expected count of zero an error instead of a continuation with an empty list.
+	return myView
 }
 
 func (m *Member) myMemberViewSorted(topic topic) intSlice {
